@@ -32,6 +32,9 @@ CHECKS = {
  "C08": dict(category="exploration", technique="Hypothesis-generated collections and members: round trips (dict, schema through JSON text, pickle) + differential runs in persistent worker processes across a PYTHONHASHSEED sweep + metamorphic identifier sensitivity",
    text="from_dict(to_dict) (also with export_parent), Model.from_* -> Schema.dump -> JSON -> Schema.load -> to_*, and pickling must return an equal object with the same identifier, dictionary, hash, qualifiers, chunk-relative blocks and sequences (incl. alternative haplotype sequence of variant collections) on no parent / whole chromosome / chunk; identifiers and dictionary digests must agree across hash seeds and qualifier insertion orders; one changed coordinate/strand/frame must change the identifiers of the interval and its ancestors only.",
    note="Hash-seed sweep is finite (4 quick / 16 thorough). Variant collections are placed clear of genes so C13 behaviour is not mixed in. Uses the marshmallow 4 compat shim.", ref="DESIGN.md §5 C08"),
+ "C09": dict(category="exploration", technique="Hypothesis-generated collections x query ranges/flags/identifier subsets plus an exhaustive all-ranges x all-flags sweep over a fixed collection, judged by brute-force membership over child spans and by SeqModel for member sequences",
+   text="query_by_position (strict/relaxed, coding-only, expansion; ranges absolute, open, or pinned to member edges; collections on no parent, id-only parent, whole chromosome, chunk, or placed around multiples of 2^17 so the bin prefilter is active), identifier, GUID and the three interval-GUID queries: exact member sets, documented bounds, member dictionaries/identifiers unchanged, kept grandchildren exactly the requested ones, member sequences equal the source restricted to the new bounds, invalid ranges refused.",
+   note="cgranges absent: only the non-optimised path runs. Variant collections sit clear of genes.", ref="DESIGN.md §5 C09"),
  "C15": dict(category="exploration", technique="exhaustive enumeration of the finite domains against typed-in IUPAC tables and Biopython's NCBI codon tables",
    text="Every element of every finite domain (4096 IUPAC triplets x case, all alphabet letters, frames x shifts in [-30,30], all strand pairs/triples, all biotype names) is enumerated and compared with an independent reference; within those domains this is complete.",
    note="Trusts Biopython CodonTable ids 1/11 and Bio.Seq.complement; IUPAC tables typed into checks/c15.py.", ref="DESIGN.md §5 C15"),
